@@ -378,6 +378,8 @@ def unit_main(sess, ctx):
         eng.contracts[QL + "initialize_workers"] = c_init
         eng.iface[("ITokW", "start_all")] = lambda e, o, a, k: log.append(("start_all",))
         eng.iface[("ITokW", "stop_all")] = lambda e, o, a, k: log.append(("stop_all",))
+        # the tokenizer thread may be alive or not when main looks (it may have died on a read error): arbitrary
+        eng.iface[("ITokW", "is_alive")] = lambda e, o, a, k: Bool(fresh_name("tokenizer_alive"))
         eng.iface[("ISaver", "join")] = lambda e, o, a, k: log.append(("saver.join",))
         # the final export may fail: with the encoder's own warning, or with any other error (unwritable target, full disk)
         exp_out = ["ok", "AudioEncodingWarning", "OSError"][eng.choose(3, None, "export_audio outcome")] if with_saver else "ok"
